@@ -3,13 +3,13 @@ CONSTANTS Cfg <- TheCfg
  Wedge = FALSE
  MakeOnPending = "replace"
  FireDropsBs = FALSE
- MaxN = 4
+ MaxN = 5
 CONSTRAINT Bound
 VIEW View
 INVARIANT DoorsWellFormed
 INVARIANT StoreCovers
 INVARIANT GenUnique
 INVARIANT StoreIsLive
-INVARIANT RelockScheduledNoDirect
+INVARIANT RelockScheduledUndisturbed
 PROPERTY RestartInvisible
 CHECK_DEADLOCK FALSE
